@@ -432,9 +432,16 @@ pub fn frames(sink: &mut Sink, seed: u64, thorough: bool) {
         let mut val = |lo: f64, hi: f64| -> f64 { let x: f64 = r.gen_range(lo..hi); if quarter { (x * 4.0).round() / 4.0 } else { (x * 1000.0).round() / 1000.0 } };
         let mut p = vec![Call::Margin(m), Call::ImageBackgroundShape(i % 3), Call::Image("logo.png".into())];
         let sel = (i / 2) % 8;
-        if sel & 1 != 0 { p.push(Call::ImageSize(val(1.0, n * 0.45))); }
-        if sel & 2 != 0 { p.push(Call::ImageGap(val(0.0, 3.0))); }
-        if sel & 4 != 0 { let x = val(n * 0.3, n * 0.7 + m as f64); let y = val(n * 0.3, n * 0.7 + m as f64); p.push(Call::ImagePosition(x, y)); }
+        // every fourth override program takes its values from the WHOLE legal range instead of the comfortable one: images smaller than a
+        // module or larger than the whole drawing, gaps up to a symbol side, positions anywhere in the drawing and a little outside
+        let wide = (i / 16) % 4 == 3;
+        let cellsf = n + 2.0 * m as f64;
+        if sel & 1 != 0 { p.push(Call::ImageSize(if !wide { val(1.0, n * 0.45) } else { match (i / 64) % 4 { 0 => val(0.01, 1.0), 1 => val(n * 0.45, cellsf), 2 => val(cellsf, cellsf + 3.0), _ => val(cellsf, 3.0 * cellsf) } })); }
+        if sel & 2 != 0 { p.push(Call::ImageGap(if !wide { val(0.0, 3.0) } else { val(3.0, n) })); }
+        if sel & 4 != 0 {
+            let (lo, hi) = if !wide { (n * 0.3, n * 0.7 + m as f64) } else { (-5.0, cellsf + 5.0) };
+            let x = val(lo, hi); let y = val(lo, hi); p.push(Call::ImagePosition(x, y));
+        }
         if sel == 0 { p.push(Call::ImageSize(val(1.0, n * 0.45))); p.push(Call::ImageSize(val(1.0, n * 0.45))); }
         let id = sink.id();
         let mut ev = svg_event(id, &format!("frameopt:{sel}"), qr, &p);
